@@ -48,6 +48,7 @@ def main():
             print("%-8s %-9s %s" % (sid, "DETECTED" if own else ("(no check)" if meta["property"] not in registry.CHECKS else "MISSED"), "; ".join("%s: %s" % (p, ",".join(r)) for p, r in hits)))
             if upd:
                 meta["detected_by"] = [{"check": p, "rules": r} for p, r in hits if r != ["ANALYSIS-INCOMPLETE"]] or None
+                meta["analysis_incomplete"] = sorted(p for p, r in hits if r == ["ANALYSIS-INCOMPLETE"]) or None
                 json.dump(meta, open(os.path.join(V, "seeded", sid, "meta.json"), "w"), indent=1)
             shutil.rmtree(base, ignore_errors=True)
     finally:
